@@ -5,7 +5,8 @@ See DESIGN.md §6 C10.
 Op lines (stateful; one QR object with a save/restore stack, one Anderson object):
   new n m | add v | rem | scale f | reset | solve b tol x0 | push | pop
   anew n memory min_div_fac | ainit g r | acomp g r | areset | ascale f
-QR dump  : K head tail hist reorth min_eig max_eig | fwd pairs | rev pairs | get_R() | get_Q()
+QR dump  : K head tail hist reorth min_eig max_eig | fwd pairs | rev pairs | ring_next/prev table |
+           get_R() | get_Q()
 AA dump  : init n m_AA | G columns (ring order + tail) | r_last | QR dump
 acomp out: x_aa | γ_LS[0..K) | AA dump
 
@@ -19,7 +20,15 @@ import os
 import sys
 from fractions import Fraction as Fr
 
-import numpy as np
+try:
+    import numpy as np
+except ModuleNotFoundError:                     # the plain interpreter has no numpy: python3-vt does
+    import shutil
+    _vt = shutil.which('python3-vt')
+    if _vt is None or os.environ.get('C10_REEXEC'):
+        raise
+    os.environ['C10_REEXEC'] = '1'
+    os.execv(_vt, [_vt] + sys.argv)
 
 sys.path.insert(0, os.path.dirname(os.path.abspath(__file__)))
 import common as C
@@ -74,10 +83,10 @@ def solve_line(rng, n, m, tolkind=None):
     return f'solve {vec2p(b)} {f2h(tol)} {vec2p([7.0] * m)}'
 
 
-def exhaustive(rng, L, caps, dims):
-    """Every word of length ≤ L over {add, rem, reset, scale} that stays within capacity, for the
-    given capacities and dimensions, as one DFS with push/pop (each trie node executed once);
-    a solve after every node with a non-empty window."""
+def exhaustive(rng, L, caps, dims, alphabet='ARXS'):
+    """Every word of length ≤ L over `alphabet` ⊆ {Add, Remove, reset (X), Scale} that stays within
+    capacity, for the given capacities and dimensions, as one DFS with push/pop (each trie node
+    executed once); a solve after every node with a non-empty window."""
     ops = []
     for m in caps:
         for n in dims:
@@ -86,7 +95,7 @@ def exhaustive(rng, L, caps, dims):
             def dfs(depth, K, win):
                 if depth == L:
                     return
-                for letter in 'ARXS':
+                for letter in alphabet:
                     if letter == 'A' and K >= m:
                         continue
                     if letter == 'R' and K == 0:
@@ -202,9 +211,12 @@ def random_aa(rng, count):
 
 
 def gen_ops(rng, n):
-    """n = size knob: (exhaustive length, #random QR sequences, #random Anderson sequences)."""
-    L, nq, na = n
+    """n = size knob: (exhaustive length over all four letters, exhaustive length over {add, remove},
+    #random QR sequences, #random Anderson sequences)."""
+    L, L2, nq, na = n
     ops = exhaustive(rng, L, (1, 2, 3), (1, 2, 3, 4))
+    if L2 > L:          # deeper, over {add, remove} only (ring wrap-around at every phase)
+        ops += exhaustive(rng, L2, (1, 2, 3), (1, 2, 3, 4), 'AR')
     ops += random_qr(rng, nq)
     ops += random_aa(rng, na)
     return ops
@@ -245,6 +257,7 @@ def parse_qr_dump(o):
     d['K'] = o.nat(); d['head'] = o.nat(); d['tail'] = o.nat(); d['hist'] = o.nat()
     d['reorth'] = o.nat(); d['min'] = o.flt(); d['max'] = o.flt()
     o.bar(); d['fwd'] = o.pairs(); o.bar(); d['rev'] = o.pairs()
+    o.bar(); k = o.nat(); d['nextprev'] = [o.nat() for _ in range(k)]
     o.bar(); d['R'] = o.vec(); o.bar(); d['Q'] = o.vec()
     return d
 
@@ -267,6 +280,9 @@ def check_ring(d, K, head, m):
         return f'ring_iter yields {d["fwd"]}, expected logical j ↦ (head+j) mod m = {exp}'
     if d['rev'] != exp[::-1]:
         return f'ring_reverse_iter yields {d["rev"]}, expected the reverse of ring_iter {exp[::-1]}'
+    np_exp = [(i + 1) % m for i in range(m)] + [(i - 1) % m for i in range(m)]
+    if d['nextprev'] != np_exp:
+        return f'ring_next / ring_prev = {d["nextprev"]}, expected ±1 mod m = {np_exp}'
     return None
 
 
@@ -314,18 +330,15 @@ def check_factorisation(d, win, n, st):
 
 
 def new_col_dependent(win, v):
-    """Is v (the column being added) numerically in the span of the current window?"""
-    vv = np.array(v, dtype=float)
-    nv = np.linalg.norm(vv)
-    if nv == 0:
+    """Is the window *with* the column being added numerically rank deficient?  (v = 0, v in the span
+    of the window, more columns than rows, or an earlier dependent column still in the window: in all
+    these cases no orthonormal Q can come out of Gram-Schmidt and norm_q is 0 up to rounding.)"""
+    M = np.array(list(win) + [v], dtype=float).T
+    nrm = np.linalg.norm(M, axis=0)
+    if np.any(nrm == 0) or M.shape[1] > M.shape[0]:
         return True
-    if not win:
-        return False
-    A = np.array(win, dtype=float).T
-    u, s, _ = np.linalg.svd(A, full_matrices=False)
-    u = u[:, s > 1e-13 * s[0]] if s[0] > 0 else u[:, :0]
-    res = vv - u @ (u.T @ vv)
-    return bool(np.linalg.norm(res) <= 1e-13 * nv * max(1.0, A.shape[1]))
+    sv = np.linalg.svd(M / nrm, compute_uv=False)
+    return bool(sv[-1] <= 1e-13 * sv[0] * M.shape[1])
 
 
 def qr_monitor(kind, t, o, S):
@@ -379,7 +392,8 @@ def qr_monitor(kind, t, o, S):
                 return (f'normal-equation residual ‖Aᵀ(Ax − b)‖ = {ne:.3e} > 1e-10·cond·‖A‖(‖A‖‖x‖+‖b‖) = '
                         f'{1e-10 * cond * scale:.3e}: x is not the least-squares minimiser')
             xl, *_ = np.linalg.lstsq(A, bb, rcond=None)
-            if not np.linalg.norm(xs - xl) <= 1e-9 * cond * (np.linalg.norm(xl) + 1e-300) + 1e-290:
+            a2 = np.linalg.norm(A, 2)
+            if not np.linalg.norm(xs - xl) <= 1e-9 * cond * (np.linalg.norm(xl) + np.linalg.norm(bb) / a2) + 1e-290:
                 return f'solve_col x = {xs} differs from the least-squares solution {xl} (cond {cond:.3g})'
         return None
 
@@ -605,10 +619,11 @@ def main(argv):
         extra_sources=['Alpaqa/Model/C10.lean', 'Alpaqa/Gen/C10.lean', 'Alpaqa/Proofs/C10Basic.lean',
                        'Alpaqa/Proofs/C10Add.lean', 'Alpaqa/Proofs/C10Misc.lean',
                        'Alpaqa/Proofs/C10Remove.lean', 'Alpaqa/Proofs/C10Solve.lean',
-                       'Alpaqa/Proofs/C10Anderson.lean', 'Alpaqa/Proofs/Basic.lean', 'Driver/C10.lean'],
+                       'Alpaqa/Proofs/C10Anderson.lean', 'Alpaqa/Proofs/C10History.lean', 'Alpaqa/Proofs/Basic.lean',
+                       'Driver/C10.lean'],
         harness_name='c10', harness_sources=[os.path.join(C.VERIF, 'harness', 'c10.cpp')],
         gen_ops=gen_ops, monitor=monitor, nontrivial=nontrivial, extra_stage=extra_stage,
-        n_quick=(6, 250, 250), n_thorough=(8, 4000, 4000), search_factor=2,
+        n_quick=(6, 8, 250, 250), n_thorough=(8, 8, 4000, 4000), search_factor=2,
         trusted_base=[
             'Lean 4.33 kernel + Mathlib (axioms: propext, Classical.choice, Quot.sound)',
             'gen/cxxparse.py + gen/lean_emit.py + gen/gen_c10.py (translator: r_succ/r_pred, ring_head/tail, '
@@ -630,8 +645,8 @@ def main(argv):
                      'on every run)',
                      'within capacity: add_column only with num_columns() < m, remove_column only with '
                      'num_columns() > 0 (the C++ asserts are compiled out under NDEBUG)'],
-        rule='exhaustive: every word over {add, remove, reset, scale} within capacity up to length 6 (quick) / '
-             '8 (thorough) for capacities m∈{1,2,3} × dimensions n∈{1,2,3,4} (m > n included: the (n+1)-th '
+        rule='exhaustive: every word over {add, remove, reset, scale} within capacity up to length 6 (quick; plus '
+             'every word over {add, remove} up to length 8) / 8 (thorough) for capacities m∈{1,2,3} × dimensions n∈{1,2,3,4} (m > n included: the (n+1)-th '
              'column is necessarily dependent), one DFS with push/pop, a solve after every node; seeded random '
              'QR sequences n ≤ 6, m ≤ 5 (well-conditioned, nearly dependent 1e-12…1e-2, wide dynamic range, '
              'degenerate: zero / repeated columns, m > n overflow) and Anderson runs on noisy affine contractions '
